@@ -73,6 +73,43 @@ CLAIMS = {
                   "expansion step (linearity, scalar factor, accumulation), TA identities for the "
                   "generator terms, pairing rule for the RWA flag, alias/ownership rule",
         design="3/C02"),
+    "C07": dict(
+        text="Static, all-inputs decision of the algebraic clauses of C07: the action sum_cd "
+             "R[a,b,c,d] rho[c,d] of the tensor produced by convert_2_tensor from the operators stored "
+             "by _implementation equals RedfieldRelaxationTensor.apply (operator form), equals "
+             "rdmpropagator._OTI up to the factor dt/ll, and _TTI is that contraction - for Redfield "
+             "and Lindblad forms, and for the time-dependent pair under the printed assumption "
+             "symmetric(K_m) (index algebra, canonical-form equality); conversion/secularisation "
+             "typestate (same assembler, data stored before as_operators is cleared, convert before "
+             "masking, dispatch of apply); both forms obey the covariant transformation law "
+             "(C04-B4 instances); the time-dependent and time-independent integrand pipelines are the "
+             "same expression with the latter taking element length-1 of the running integral the "
+             "former keeps. Since C02-A shows both propagation routines are the same Taylor scheme "
+             "around these maps, equal maps give equal dynamics. Not decided: data[0]=0 (a property of "
+             "the spline antiderivative) and the pure-dephasing benchmark (numerics).",
+        note=BASE_NOTE + "scipy spline antiderivative returns the running integral; symmetric(K_m) for "
+             "the time-dependent pair.",
+        technique="index-algebra abstract interpretation of assembler, apply() and propagator helpers "
+                  "with canonical-form equality; typestate/ordering rules; alpha-normalised sibling "
+                  "expression comparison",
+        design="3/C07"),
+    "C08": dict(
+        text="Static decision of the structural clauses of C08: all four initialisation sites write "
+             "the unit superoperator delta_ac delta_bd (at time index 0) (TA); the first interval is "
+             "built column by column from propagated basis elements E_nm with set/propagate/reset "
+             "paired on every path and stored at U[:,:,n,m] from the last stored time; every "
+             "composition call is new = step . previous with the default contraction (TA evaluation "
+             "of the call expression, accepts equivalent einsum/axes spellings), loops start at 2, "
+             "calculate() re-initialises first; the incremental mode performs the same first step and "
+             "recurrence and advances 'now' exactly once per call on every path; apply/at contract the "
+             "stored tensor at the located index with the state. By induction the time-independent "
+             "superoperator is U(t_1)^i, hence a semigroup on the grid; trace/Hermiticity follow from "
+             "C02-B by linearity. Not decided: error from refining the dense step.",
+        note=BASE_NOTE + "Linearity of propagate() in the initial state (C02-A).",
+        technique="index-algebra evaluation of initialisation loops and composition call expressions, "
+                  "pairing/ordering rules on the AST, path counting of the step counter, sibling "
+                  "comparison of the two calculation modes",
+        design="3/C08"),
 }
 
 NOT_YET = "check not built yet in this round (see DESIGN.md section 3 for the planned rules)"
